@@ -95,14 +95,17 @@ def mk_fh(tok):
     if tok.startswith("a:"):
         v = tok[2:]
         return ForecastingHorizon(np.array([] if v == "-" else [int(x) for x in v.split(",")], dtype="int64"), is_relative=False)
-    global _FH_FORM
-    _FH_FORM = (_FH_FORM + 1) % 3
-    if tok == "dup":           # a duplicate step, as list / array / pandas index, adjacent or not
-        return [[1, 2, 2], np.array([2, 1, 2]), pd.Index([1, 2, 2])][_FH_FORM]
-    if tok == "empty":
-        return [[], np.array([], dtype="int64"), pd.Index(np.array([], dtype="int64"))][_FH_FORM]
+    # the case says in which container form a malformed horizon is handed over (so a replay is exact)
+    def pick(forms):
+        return forms[_FH_FORM % len(forms)]
+    if tok == "dup":           # a duplicate step, as list / array / pandas index / horizon-object input, adjacent or not
+        return pick([[1, 2, 2], np.array([2, 1, 2]), pd.Index([1, 2, 2])])
+    if tok == "empty":         # also as an (empty) horizon object, relative or absolute: constructing one is allowed, using it is not
+        return pick([[], np.array([], dtype="int64"), pd.Index(np.array([], dtype="int64")),
+                     ForecastingHorizon([], is_relative=True), ForecastingHorizon(np.array([], dtype="int64"), is_relative=False),
+                     ForecastingHorizon(pd.RangeIndex(0), is_relative=True)])
     if tok == "frac":
-        return [[1, 2.5], np.array([1.0, 2.5]), [0.5]][_FH_FORM]
+        return pick([[1, 2.5], np.array([1.0, 2.5]), [0.5], [100000.4, 100001.0], np.array([2.0 + 2.0 ** -30])])
     return {"str": "abc", "float": 1.0}[tok]
 
 
@@ -179,7 +182,7 @@ def ep_required(c):
     """horizon-dependent forecaster (direct reduction): missing horizon at fit, different horizon at predict"""
     from sklearn.linear_model import LinearRegression
     from sktime.forecasting.compose import make_reduction
-    f = make_reduction(LinearRegression(), strategy="direct", window_length=2)
+    f = make_reduction(LinearRegression(), strategy=c.get("strategy", "direct"), window_length=2)
     y = mk_y("ok:%d" % c["n"], 0)
     if c["phase"] == "fit":
         return _outcome(lambda: f.fit(y, fh=mk_fh(c["fh"])), lambda: f)
